@@ -121,3 +121,11 @@ Theorem C16_tick_sends_owed_ack :
   o <> [] /\ (forall p, In p o -> k_nr p = c_nr c) /\ c_zlb c' = None /\ c_nr c' = c_nr c.
 Proof. exact tick_sends_owed_ack. Qed.
 Print Assumptions C16_tick_sends_owed_ack.
+
+(* every real (non-ZLB) message that reaches the channel — accepted, duplicate or out of window —
+   arms the ZLB timer zlbDelay from now, under both dispatch rules *)
+Theorem C16_data_arms_ack :
+  forall z f c p b now c' o h,
+  k_body p = Some b -> dispatch z f c p now = (c', o, h) -> c_zlb c' = Some (now + f_zlb f).
+Proof. exact data_arms_ack. Qed.
+Print Assumptions C16_data_arms_ack.
